@@ -398,6 +398,10 @@ pub fn run(ctx: &Ctx) -> Outcome {
             let st = doubles::shared(prior);
             let mut p = InstrPort::scripted(st.clone(), FragReader::plain(vec![]), FragWriter::new(vec![], WriteAct::Accept(usize::MAX)));
             for k in 0..70_000u64 {
+                if k % 64 == 0 && crate::util::soft_deadline_passed() {
+                    rep.count("loops_cut_short_at_the_soft_deadline");
+                    break;
+                }
                 let t = Duration::from_micros(1 + k * 37);
                 let r = catch(|| flipdot_serial::configure_port(&mut p, t).map_err(|e| e.to_string()));
                 let ok = {
